@@ -508,6 +508,19 @@ func (s *Subvolume) NumVoxels() int64 {
 	return voxels
 }
 
+// MaxBlockRowScans bounds the number of (y,z) rows of blocks a single request may scan with
+// one range query each.
+const MaxBlockRowScans = int64(1) << 24
+
+// CheckBlockRowScans returns an error if a region of ny x nz rows of blocks needs more range
+// queries than MaxBlockRowScans (such a request would run for days).
+func CheckBlockRowScans(ny, nz int64) error {
+	if ny > 0 && nz > 0 && ny > MaxBlockRowScans/nz {
+		return fmt.Errorf("requested region spans %d x %d rows of blocks, more than the %d supported per request", ny, nz, MaxBlockRowScans)
+	}
+	return nil
+}
+
 // MaxNumVoxels is what NumVoxels() returns for a geometry with more voxels than that: far
 // beyond any request limit, yet small enough to be multiplied by a voxel size without
 // wrapping around int64.
